@@ -1752,7 +1752,9 @@ impl ParsedReturnType {
                                 }
                             }
                             _ => {
-                                if ident == result_ident {
+                                // A result alias given to `#[int_result(..)]` is an additional
+                                // spelling, `Result` itself must still be wrapped.
+                                if ident == result_ident || ident == "Result" {
                                     let mut args = args.args.iter();
 
                                     let to_match =
